@@ -34,6 +34,7 @@ mod props {
 	pub mod c14;
 	pub mod c15;
 	pub mod c16;
+	pub mod c17;
 }
 mod corpus;
 mod gen;
@@ -125,6 +126,11 @@ fn real_main() {
 			"C09" => {
 				engines::input::run(&mut out, &mut rng.fork(), thorough);
 				props::c09::run(&mut out, &mut rng.fork(), thorough);
+			}
+			"C17" => {
+				// guards: read_handler / ChunkReader::read vs the model, incl. over-reports
+				engines::chunker::run_guards(&mut out, &mut rng.fork(), thorough);
+				props::c17::run(&mut out, &mut rng.fork(), thorough);
 			}
 			// Development entry for the JSON model slice (not a property id).
 			"JSONDEV" => {
